@@ -293,7 +293,8 @@ def rule_Q4(ctx) -> None:
                   and n.args and isinstance(n.args[0], ast.Constant) and n.args[0].value == "."]
         td_calls = [n for n in ast.walk(fn) if isinstance(n, ast.Call) and ast.unparse(n.func) == "timedelta" and any(k.arg in ("microseconds", "milliseconds") for k in n.keywords)]
         signed = any(isinstance(n, ast.Call) and isinstance(n.func, ast.Attribute) and n.func.attr == "startswith" and n.args and
-                     isinstance(n.args[0], ast.Constant) and n.args[0].value == "-" for n in ast.walk(fn)) or "< 0" in src or "abs(" in src or "copysign" in src
+                     isinstance(n.args[0], ast.Constant) and n.args[0].value == "-" for n in ast.walk(fn)) or "< 0" in src or "abs(" in src or "copysign" in src \
+            or any(isinstance(n, ast.Compare) and any(isinstance(c, ast.Constant) and c.value == "-" for c in [n.left] + n.comparators) for n in ast.walk(fn))
         if splits and td_calls and not signed:
             bad = (fn, splits[0])
     if bad:
